@@ -90,6 +90,10 @@ class Tr2(Tr):
             return f'(decide ({t} ≠ 0))'
         if ty == 'str':
             return f'(!({t}).isEmpty)'
+        if ty == 'obool':
+            return f'({t} == some true)'          # None and False are both falsy
+        if ty == 'onum':
+            return f'({t}.isSome && {t} != some 0)'
         raise Untranslatable(f'truth value of {ty}: ' + ast.unparse(e))
 
 
@@ -140,6 +144,13 @@ class FnTr:
                 if env[key][1] in ('onum', 'obool'):
                     if ctx == 'test': tested.append(key)
                     elif ctx == 'use': used.append(key)
+                    # ctx == 'truth': the truth value of None is False, no error; ctx == 'pass': handed on
+                return
+            if ctx == 'truth' and isinstance(n, ast.BoolOp):
+                for c in n.values: walk(c, 'truth')
+                return
+            if ctx == 'truth' and isinstance(n, ast.UnaryOp) and isinstance(n.op, ast.Not):
+                walk(n.operand, 'truth')
                 return
             if ctx == 'pass' and isinstance(n, ast.Tuple):
                 for c in n.elts: walk(c, 'pass')
@@ -157,7 +168,7 @@ class FnTr:
                 return
             for c in ast.iter_child_nodes(n):
                 walk(c, 'use')
-        walk(e, 'pass' if passthrough else 'use')
+        walk(e, 'truth' if passthrough == 'truth' else 'pass' if passthrough else 'use')
         used = list(dict.fromkeys(used))
         if set(used) & set(tested):
             raise Untranslatable('optional both tested and used in one expression: ' + ast.unparse(e))
@@ -179,7 +190,7 @@ class FnTr:
             self.fresh += 1
             v = f'{t.strip("()").replace(".", "_")}_v{self.fresh}'
             out.append(f'{cur}(match {t} with')
-            out.append(f'{cur}| none => .error .typeError')
+            out.append(f'{cur}| none => ' + self.err(env, '.typeError'))
             out.append(f'{cur}| some {v} =>')
             env2[u] = (v, 'num' if ty == 'onum' else 'bool')
             cur += '  '
@@ -231,7 +242,7 @@ class FnTr:
         if isinstance(s, ast.Raise):
             exc = s.exc.func if isinstance(s.exc, ast.Call) else s.exc
             name = ast.unparse(exc) if exc is not None else '?'
-            return f'{ind}.error {ERRS.get(name, ".other")}'
+            return ind + self.err(env, ERRS.get(name, '.other'))
         if isinstance(s, ast.Return):
             if s.value is None or is_none(s.value):
                 return ind + self.fall_off(env)
@@ -258,7 +269,7 @@ class FnTr:
                 a = self.block(list(s.body) + rest, env, ind2 + '  ')
                 b = self.block(list(s.orelse) + rest, env, ind2 + '  ')
                 return f'{ind2}if {c} then\n{a}\n{ind2}else\n{b}'
-            return self.unwrapping([s.test], env, ind, k)
+            return self.unwrapping([s.test], env, ind, k, passthrough='truth')
         if isinstance(s, ast.Assign) and len(s.targets) == 1:
             tgt = s.targets[0]
             if isinstance(tgt, ast.Tuple):
@@ -348,7 +359,7 @@ class FnTr:
         if not (plain(s.body) and plain(s.orelse)):
             return None
         try:
-            if self.option_uses(s.test, env):
+            if self.option_uses(s.test, env, 'truth'):
                 return None
 
             def run(block):
@@ -392,6 +403,9 @@ class FnTr:
         for k in keys:
             e3[k] = ea[k]
         return (f'{ind}let {pat} := if {c} then\n{a}\n{ind}  else\n{b}\n' + self.block(rest, e3, ind))
+
+    def err(self, env, code):
+        return f'.error {code}'
 
     def ok(self, env, ret=None):
         parts = ([ret] if ret is not None else []) + [env[k][0] for k in self.spec.result]
